@@ -268,12 +268,59 @@ def c01(prop, tier, seed, t0):
 def with_g1(scs, seed, tier, quick_limit):
     import g1
     g, info = g1.transition_scenarios(seed, limit=quick_limit if tier == "quick" else 40000, scope=1)
-    return scs + g, {"g1_transition_cover": info}
+    w = g1.small_alphabet_walks(seed, 150 if tier == "quick" else 3000)
+    info["small_alphabet_walks"] = len(w)
+    return scs + g + w, {"g1_transition_cover": info}
+
+
+def msan_pass(prop, scenarios, seed):
+    """Run the scenarios once more under MemorySanitizer with fresh allocations left uninitialised:
+    the port checks every transmitted byte with __msan_check_mem_is_initialized.  -> [(scenario, why)]"""
+    work = vlib.Work(prop + "msan")
+    binp = vlib.build_responder("msan")
+    bad = []
+
+    def one(t):
+        idx, scs = t
+        res = []
+        todo = list(scs)
+        while todo:
+            text, spans = vlib.assemble(todo)
+            sp, tp = work.path("m%d.script" % idx), work.path("m%d.ndjson" % idx)
+            with open(sp, "w") as f:
+                f.write(text)
+            rc, err = vlib.run_harness(binp, sp, tp, env={"MSAN_OPTIONS": "halt_on_error=1"})
+            if rc == 0:
+                break
+            last = vlib.last_line_of_trace(tp)
+            ln = (last or {}).get("ln", 0)
+            sc = vlib.scenario_at(spans, min(ln + 1, spans[-1][1])) or todo[-1]
+            msg = [l for l in err.split("\n") if "MemorySanitizer" in l or "/repo/" in l][:4]
+            res.append((sc, "MemorySanitizer: " + " | ".join(x.strip() for x in msg)[:400]))
+            todo = [s for s in todo if s is not sc]
+            if len(res) >= 3:
+                break
+        return res
+
+    for r in vlib.parallel(one, list(enumerate(vlib.shard(scenarios, NSHARDS)))):
+        bad += r
+    if not bad:
+        work.cleanup()
+    return bad
 
 
 def c02(prop, tier, seed, t0):
-    return responder_check(prop, tier, seed, t0, {"C02", "EQ"}, campaigns.campaign_c02(seed, tier), mc=[MC_GENERAL],
-                           assumptions=["determinism clause: twin interfaces with fresh-allocation fill 0xA5 / 0x5A must transmit identical bytes"])
+    scs = campaigns.campaign_c02(seed, tier)
+    mbad = msan_pass(prop, scs, seed)
+    replays = [vlib.write_replay(prop, {"C02", "EQ"}, sc, why, seed, 200 + i, kind="responder-msan") for i, (sc, why) in enumerate(mbad[:5])]
+    for p in replays:
+        print("VIOLATION property=%s replay=%s" % (prop, p))
+    rc = responder_check(prop, tier, seed, t0, {"C02", "EQ"}, scs, mc=[MC_GENERAL],
+                         assumptions=["determinism clause: twin interfaces with fresh-allocation fill 0xA5 / 0x5A must transmit identical bytes; "
+                                      "the same scenarios run a second time under MemorySanitizer with fresh allocations left uninitialised and "
+                                      "every transmitted byte checked with __msan_check_mem_is_initialized"],
+                         extra_cov={"msan_scenarios": len(scs), "msan_reports": len(mbad)})
+    return 1 if (rc or mbad) else 0
 
 
 def c03(prop, tier, seed, t0):
@@ -709,7 +756,24 @@ def _c17_pair(work, rbin, check, seed, idx):
     return ("interleaved histories: interface trace differs from its solo trace or from the specification (merged event %d)" % v["rejected_at"], rp), v.get("events", 0)
 
 
-REGISTRY = {"C17": c17, "C11": c11, "C12": c12, "C13": c13, "C14": c14, "C15": c15, "C16": c16, "C01": c01, "C02": c02, "C03": c03, "C04": c04, "C05": c05, "C06": c06, "C07": c07, "C08": c08, "C09": c09, "C10": c10, "C18": c18, "C19": c19}
+def xenum(prop, tier, seed, t0):
+    """Extension beyond the listed properties (not registered in MANIFEST): the enumeration engine's
+    transition table as coded, exhaustively, plus an informational diff against the documented table."""
+    from vlib import Scenario
+    lines = ["NEW"]
+    for s in (0, 1, 2):
+        for ev in range(-2, 11):
+            lines.append("ESTEP %d %d 0" % (ev, s))
+    work = vlib.Work(prop)
+    r = vlib.tlc_run(work.dir, "EnumDocMC.tla", work.path("EnumDocMC.cfg"), workers=1, timeout=120)
+    m = re.search(r"ENUM-DOC-VS-CODE.*?\{(.*?)\} >>", r["out"], re.S)
+    log("documented vs coded enumeration table differs in cells (state, event, new-session-complete): %s"
+        % (re.sub(r"\s+", " ", m.group(1)) if m else "?"))
+    work.cleanup()
+    return automata_check(prop, tier, seed, t0, {"XENUM"}, [Scenario("xenum-steps", lines)])
+
+
+REGISTRY = {"XENUM": xenum, "C17": c17, "C11": c11, "C12": c12, "C13": c13, "C14": c14, "C15": c15, "C16": c16, "C01": c01, "C02": c02, "C03": c03, "C04": c04, "C05": c05, "C06": c06, "C07": c07, "C08": c08, "C09": c09, "C10": c10, "C18": c18, "C19": c19}
 
 
 # =========================================================================== replay
@@ -730,6 +794,9 @@ def replay(path):
     elif kind == "automata":
         binp = vlib.build_automata("asan")
         bad, why = confirm(work, binp, check, sc, module="AutomataTrace.tla")
+    elif kind == "responder-msan":
+        r = msan_pass(prop, [sc], 0)
+        bad, why = bool(r), (r[0][1] if r else "")
     elif kind == "linuxport":
         binp = vlib.build_linuxport("asan")
         bad, why = confirm(work, binp, check, sc, module="LinuxPort.tla")
